@@ -25,6 +25,7 @@ static void hexs(char* out, const uint8_t* b, int n) { if (n <= 0) { strcpy(out,
 
 static struct sLinkLayerParameters llp;
 static SerialTransceiverFT12 trx;
+static int u_own = 0;
 static LinkLayerSecondaryUnbalanced U; static LinkLayerBalanced B; static LinkLayerPrimaryUnbalanced P;
 static long n_ops = 0, n_tx = 0, n_rx = 0, n_corrupt = 0, n_corrupt_accepted = 0, n_valid_fed = 0, n_retx = 0, n_state = 0;
 
@@ -128,16 +129,40 @@ static void feed(const uint8_t* b, int n) { SimSerial* s = &sim_serial[0]; if (s
 static void note_cur(const uint8_t* b, int n) { cur_fc = -1; cur_fcv = 0; if (n >= 4 && (b[0] == 0x10 || b[0] == 0x68)) { uint8_t c = (b[0] == 0x10) ? b[1] : (n > 4 ? b[4] : 0); if (c & 0x40) { cur_fc = c & 0x0f; cur_fcv = (c & 0x10) ? 1 : 0; cur_fcb = (c & 0x20) ? 1 : 0; } } }
 
 /* ---- operations ---- */
+static void u_run_inner(uint64_t now, const uint8_t* b, int n, int valid);
 static void u_new(int aL, int tAck, int tRep, int single, int tLink, int addr, int idle)
 {
     destroy_all(); fprintf(ops, "u.new %d %d %d %d %d %d %d\n", aL, tAck, tRep, single, tLink, addr, idle); fflush(ops);
     llp.addressLength = aL; llp.timeoutForAck = tAck; llp.timeoutRepeat = tRep; llp.useSingleCharACK = single; llp.timeoutLinkState = tLink;
-    trx = SerialTransceiverFT12_create(sim_serial_port(0), &llp); U = LinkLayerSecondaryUnbalanced_create(addr, trx, &llp, &sec_app, NULL);
+    trx = SerialTransceiverFT12_create(sim_serial_port(0), &llp); u_own = addr; U = LinkLayerSecondaryUnbalanced_create(addr, trx, &llp, &sec_app, NULL);
     LinkLayerSecondaryUnbalanced_setIdleTimeout(U, idle); LinkLayerSecondaryUnbalanced_setStateChangeHandler(U, on_state, NULL);
     fprintf(impl, "ok\n");
 }
 static void u_q(int cls, const uint8_t* d, int n) { static char h[600]; hexs(h, d, n); fprintf(ops, "u.c%d %s\n", cls, h); fflush(ops); q_push(cls == 1 ? &c1 : &c2, d, n); fprintf(impl, "ok\n"); }
+/* ---- model-free oracle C14 (receiving, unbalanced slave): a frame that arrives on an idle line and whose length octets, true length,
+ * checksum or destination (own address, or the broadcast address of the configured width with FC 4) are wrong must cause neither a
+ * delivery to the application nor a transmission.  Second start octet / end octet are not judged (the library does not check them). ---- */
+static int acc_fail = 0; static char acc_info[900]; static long n_silent_checked = 0; static int judge_next = 1;
+static int must_be_silent(const uint8_t* b, int n)
+{
+    int aL = llp.addressLength; unsigned cs = 0; int c, dest;
+    if (n < 1) return -1;
+    if (b[0] == 0x10) { if (n != 4 + aL || b[n - 1] != 0x16) return -1; for (int i = 1; i < n - 2; i++) cs += b[i]; c = b[1]; dest = aL == 0 ? -1 : aL == 1 ? b[2] : b[2] + 256 * b[3]; if ((cs & 0xff) != b[n - 2]) return 1; }
+    else if (b[0] == 0x68) { if (n < 6 || n != b[1] + 6 || b[3] != 0x68 || b[n - 1] != 0x16) return -1; if (b[1] != b[2]) return 1; if (b[1] < 1 + aL) return -1;
+        for (int i = 4; i < n - 2; i++) cs += b[i]; c = b[4]; dest = aL == 0 ? -1 : aL == 1 ? b[5] : b[5] + 256 * b[6]; if ((cs & 0xff) != b[n - 2]) return 1; }
+    else return -1;
+    if (aL == 0 || dest == u_own) return 0;
+    if (dest == (aL == 1 ? 255 : 65535) && (c & 0x0f) == 4) return 0;
+    return 1;
+}
 static void u_run(uint64_t now, const uint8_t* b, int n, int valid)
+{
+    int silent = (judge_next && port_left() == 0) ? must_be_silent(b, n) : -1; long rx0 = n_rx, tx0 = n_tx;
+    u_run_inner(now, b, n, valid);
+    if (silent == 1) { n_silent_checked++; if ((n_rx != rx0 || n_tx != tx0) && !acc_fail++) { char h[600]; hexs(h, b, n > 280 ? 280 : n);
+        snprintf(acc_info, sizeof acc_info, "at ops-file offset %ld: frame %s (address width %d, own address %d) has a wrong checksum / length or is addressed to another station, yet it caused %s", (long) ftell(ops), h, llp.addressLength, u_own, n_rx != rx0 ? "a delivery to the application" : "a transmission"); } }
+}
+static void u_run_inner(uint64_t now, const uint8_t* b, int n, int valid)
 {
     static char h[1400]; hexs(h, b, n); fprintf(ops, "u.run %llu %s\n", (unsigned long long) now, h); fflush(ops); n_ops++;
     if (port_left() > 0) valid = 0;
@@ -226,12 +251,14 @@ static void episode_u(bool thorough)
         if (x < 12) { int n = rnd_data(d, aL); if (n) u_q(prng_below(3) ? 2 : 1, d, n); continue; }
         now += prng_below(6) ? prng_range(0, 60) : prng_range(idle, idle * 2);
         int n = 0, a = (aL && prng_below(12) == 0) ? (addr + 1 + prng_below(5)) % (aL == 1 ? 255 : 65535) : addr;
+        /* foreign addresses that are easily confused with broadcast or with the own address */
+        if (aL && prng_below(14) == 0) { const int c2[6] = { 0x00ff, 0xff00, 0xfffe, addr ^ 0x100, addr ^ 0xff00, (addr & 0xff) }; const int c1[3] = { 254, addr ^ 1, addr ^ 0x80 }; a = aL == 2 ? c2[prng_below(6)] : (c1[prng_below(3)] & 0xff); }
         if (x < 20) { n = mk_fixed(f, aL, 0x49, a); }
         else if (x < 27) { n = mk_fixed(f, aL, prng_below(8) ? 0x40 : 0x47, a); fcb = 1; }
         else if (x < 55) { int c = 0x40 | 0x10 | (fcb ? 0x20 : 0) | (prng_below(4) ? 11 : 10); n = mk_fixed(f, aL, c, a); if (a == addr) fcb = !fcb; }
         else if (x < 72) { int len = rnd_data(d, aL); int c = 0x40 | 0x10 | (fcb ? 0x20 : 0) | 3; n = mk_var(f, aL, c, a, d, len); if (a == addr) fcb = !fcb; }
         else if (x < 78 && lastn) { memcpy(f, last, lastn); n = lastn; valid = lastvalid; }                     /* retransmission of the previous frame */
-        else if (x < 83) { int len = rnd_data(d, aL); int bc = aL && prng_below(2); n = mk_var(f, aL, 0x44, bc ? (aL == 1 ? 255 : 65535) : a, d, len); }
+        else if (x < 83) { int len = rnd_data(d, aL); int bc = aL && prng_below(2); if (!bc && aL == 2 && prng_below(3) == 0) a = prng_below(2) ? 0x00ff : 0xff00; n = mk_var(f, aL, 0x44, bc ? (aL == 1 ? 255 : 65535) : a, d, len); }
         else if (x < 88) { int c = (int) prng_below(256); n = prng_below(2) ? mk_fixed(f, aL, c, a) : mk_var(f, aL, c, a, d, rnd_data(d, aL)); }   /* arbitrary control octet */
         else if (x < 92) { n = prng_range(1, 12); for (int j = 0; j < n; j++) f[j] = (uint8_t) prng_next(); if (prng_below(2)) f[0] = prng_below(2) ? 0x68 : 0x10; }
         else if (x < 94) { f[0] = 0xe5; n = 1; }
@@ -241,7 +268,7 @@ static void episode_u(bool thorough)
         if (n && prng_below(7) == 0) { long before = n_rx, btx = n_tx; n = corrupt(f, n); u_run(now, f, n, 0); if (n_rx != before || n_tx != btx) n_corrupt_accepted++; /* a corruption can still be a well-formed frame (control octet, data, both + checksum unlikely) */ continue; }
         if (n) n_valid_fed++;
         /* sometimes deliver the frame in two reads */
-        if (n > 2 && prng_below(10) == 0) { int cut = prng_range(1, n - 1); u_run(now, f, cut, 0); u_run(now, f + cut, n - cut, 0); }
+        if (n > 2 && prng_below(10) == 0) { int cut = prng_range(1, n - 1); judge_next = 0; u_run(now, f, cut, 0); u_run(now, f + cut, n - cut, 0); judge_next = 1; }
         else u_run(now, f, n, valid);
     }
 }
@@ -330,7 +357,8 @@ int main(int argc, char** argv)
     if (fcb_fail) printf("FCB_FAIL %s\n", fcb_info);
     if (dup_fail) printf("DUP_FAIL %s\n", dup_info);
     if (rep_fail) printf("REPEAT_FAIL %s\n", rep_info);
-    printf("HISTO role=link101 run_ops=%ld frames_written=%ld deliveries=%ld valid_frames_fed=%ld corrupted_fed=%ld corrupted_still_accepted=%ld retransmissions_seen=%ld state_events=%ld frame_violations=%d fcb_violations=%d duplicate_deliveries=%d repeats_checked=%ld repeat_violations=%d\n",
-        n_ops, n_tx, n_rx, n_valid_fed, n_corrupt, n_corrupt_accepted, n_retx, n_state, frame_fail, fcb_fail, dup_fail, n_repeats_checked, rep_fail);
+    if (acc_fail) printf("ACCEPT_FAIL %s\n", acc_info);
+    printf("HISTO role=link101 run_ops=%ld frames_written=%ld deliveries=%ld valid_frames_fed=%ld corrupted_fed=%ld corrupted_still_accepted=%ld retransmissions_seen=%ld state_events=%ld frame_violations=%d fcb_violations=%d duplicate_deliveries=%d repeats_checked=%ld repeat_violations=%d silent_checked=%ld accept_violations=%d\n",
+        n_ops, n_tx, n_rx, n_valid_fed, n_corrupt, n_corrupt_accepted, n_retx, n_state, frame_fail, fcb_fail, dup_fail, n_repeats_checked, rep_fail, n_silent_checked, acc_fail);
     return 0;
 }
